@@ -16,6 +16,7 @@ import (
 
 	"github.com/absfs/absnfs/internal/verif/recfs"
 	"github.com/absfs/absnfs/internal/verif/vsched"
+	"github.com/absfs/absnfs/internal/verif/vstime"
 	"github.com/absfs/absnfs/internal/verif/wire"
 )
 
@@ -439,13 +440,25 @@ type sAddr struct {
 
 // sConn is a net.Conn whose blocking is visible to the scheduler.
 type sConn struct {
-	in     *vsched.Chan[[]byte]
-	out    *vsched.Chan[[]byte]
-	buf    []byte
-	closed bool
-	remote net.Addr
-	wbuf   []byte
+	in         *vsched.Chan[[]byte]
+	out        *vsched.Chan[[]byte]
+	buf        []byte
+	closed     bool
+	remote     net.Addr
+	wbuf       []byte
+	rdl        time.Time // read deadline (virtual clock)
+	accepted   bool      // handed to the server by Accept
+	serving    bool      // the server has started reading it and has not closed it
+	everServed bool
+	onRead     func()
+	onClose    func()
 }
+
+type sTimeout struct{}
+
+func (sTimeout) Error() string   { return "i/o timeout" }
+func (sTimeout) Timeout() bool   { return true }
+func (sTimeout) Temporary() bool { return true }
 
 func newSConn(ip string, port int) *sConn {
 	return &sConn{in: vsched.NewChan[[]byte](64), out: vsched.NewChan[[]byte](64), remote: &net.TCPAddr{IP: net.ParseIP(ip), Port: port}}
@@ -453,12 +466,13 @@ func newSConn(ip string, port int) *sConn {
 
 func (c *sConn) feed(b []byte) {
 	if !c.in.Closed() {
-		c.in.Send(b)
+		c.in.SendOK(b)
 	}
 }
 func (c *sConn) closeClient() {
+	vsched.Yield()
 	if !c.in.Closed() {
-		c.in.Close()
+		c.in.CloseNoPoint()
 	}
 }
 
@@ -483,8 +497,29 @@ func (c *sConn) Read(p []byte) (int, error) {
 	if c.closed {
 		return 0, net.ErrClosed
 	}
+	c.everServed = true
+	if c.onRead != nil {
+		c.onRead()
+	}
 	if len(c.buf) == 0 {
-		b, ok := c.in.Recv2()
+		var b []byte
+		var ok bool
+		if c.rdl.IsZero() {
+			b, ok = c.in.Recv2()
+		} else {
+			d := c.rdl.Sub(vstime.Now())
+			if d <= 0 {
+				return 0, &net.OpError{Op: "read", Net: "tcp", Err: sTimeout{}}
+			}
+			tch := vsched.NewChan[struct{}](1)
+			tm := vsched.AddTimer(d, "read-deadline", func() { tch.SendNoPoint(struct{}{}) })
+			in, to := vsched.CaseRecv(c.in), vsched.CaseRecv(tch)
+			if vsched.Select(false, in, to) == 1 {
+				return 0, &net.OpError{Op: "read", Net: "tcp", Err: sTimeout{}}
+			}
+			tm.Stop()
+			b, ok = in.Val, in.Ok
+		}
 		if c.closed {
 			return 0, net.ErrClosed
 		}
@@ -502,13 +537,18 @@ func (c *sConn) Write(p []byte) (int, error) {
 	if c.closed {
 		return 0, net.ErrClosed
 	}
-	c.out.Send(append([]byte(nil), p...))
+	if !c.out.SendOK(append([]byte(nil), p...)) {
+		return 0, net.ErrClosed
+	}
 	return len(p), nil
 }
 
 func (c *sConn) Close() error {
 	if !c.closed {
 		c.closed = true
+		if c.onClose != nil {
+			c.onClose()
+		}
 		if !c.out.Closed() {
 			c.out.CloseNoPoint()
 		}
@@ -521,8 +561,8 @@ func (c *sConn) Close() error {
 
 func (c *sConn) LocalAddr() net.Addr                { return &net.TCPAddr{IP: net.ParseIP("127.0.0.1"), Port: 2049} }
 func (c *sConn) RemoteAddr() net.Addr               { return c.remote }
-func (c *sConn) SetDeadline(t time.Time) error      { return nil }
-func (c *sConn) SetReadDeadline(t time.Time) error  { return nil }
+func (c *sConn) SetDeadline(t time.Time) error      { c.rdl = t; return nil }
+func (c *sConn) SetReadDeadline(t time.Time) error  { c.rdl = t; return nil }
 func (c *sConn) SetWriteDeadline(t time.Time) error { return nil }
 
 // sListener is a net.Listener fed by the harness.
@@ -536,14 +576,33 @@ func newSListener() *sListener { return &sListener{conns: vsched.NewChan[net.Con
 func (l *sListener) Accept() (net.Conn, error) {
 	c, ok := l.conns.Recv2()
 	if !ok || l.closed {
-		return nil, &net.OpError{Op: "accept", Err: fmt.Errorf("use of closed network connection")}
+		if ok {
+			c.Close() // the kernel resets connections that were queued when the listener closed
+		}
+		return nil, &net.OpError{Op: "accept", Net: "tcp", Err: fmt.Errorf("use of closed network connection")}
+	}
+	if sc, isS := c.(*sConn); isS {
+		sc.accepted = true
 	}
 	return c, nil
+}
+
+// offer queues a connection for Accept; false when the listener is closed.
+func (l *sListener) offer(c net.Conn) bool {
+	if l.closed || l.conns.Closed() {
+		return false
+	}
+	return l.conns.SendOK(c)
 }
 
 func (l *sListener) Close() error {
 	if !l.closed {
 		l.closed = true
+		for l.conns.Len() > 0 { // connections still in the backlog are reset
+			if c, ok := l.conns.RecvNoPoint(); ok {
+				c.Close()
+			}
+		}
 		l.conns.CloseNoPoint()
 	}
 	return nil
